@@ -25,7 +25,7 @@ KCOQ = {'nat': 'KNat', 'int': 'KInt', 'string': 'KString', 'bytes': 'KBytes', 'b
 # ----------------------------------------------------------------------------------------------------------
 # types: (prim, fn, tn, *args)   fn / tn: None | str
 # ----------------------------------------------------------------------------------------------------------
-NAMES = ['a', 'b', 'c', 'owner', 'amount', 'x', 'y', 'token_id', 'data']
+NAMES = ['a', 'b', 'c', 'owner', 'amount', 'x', 'y', 'token_id', 'data', 'ab', 'n30_' + 'a' * 26, 'm31_' + 'b' * 27, 'z' * 31, 'q' * 32]
 TRICKY = ['nat_0', 'nat_1', 'int_1', 'string_1', 'string_2', 'unit_0', 'unit_1', 'pair_0', 'pair_1', 'or_1', 'bytes_2', 'bool_1',
           'option_1', 'list_1', 'map_1', 'nat_2', 'int_0', 'int_2', 'nat_3']
 
